@@ -69,11 +69,18 @@ static int who(void)
     return -1;
 }
 
+/* Waiting is done by blocking on FEB words, never by spinning on qthread_yield(): with several workers per
+ * shepherd a task that spins on yield can starve the main task (the sherwood scheduler re-queues the main task
+ * whenever a worker other than worker 0 picks it up, and the fair ticket lock phase-locks the two loops). */
+static aligned_t go[MAXT]; /* baton of participant j: filled by the controller to grant one access */
+static aligned_t ctl;      /* filled by a participant whenever it settles; the controller sleeps on it */
+
 static void sp(int me, int kind)
 {
     st[me] = kind;
     __sync_synchronize();
-    while (turn != me) qthread_yield();
+    real_fill(&ctl);
+    qthread_readFE(NULL, &go[me]);
 }
 
 static void sp_done(int me, int next)
@@ -81,6 +88,7 @@ static void sp_done(int me, int next)
     st[me] = next;
     __sync_synchronize();
     turn = -1;
+    real_fill(&ctl);
 }
 
 static void perturb(int me)
@@ -175,6 +183,7 @@ static aligned_t participant(void *arg)
     }
     __sync_synchronize();
     st[me] = K_DONE;
+    if (!mode) real_fill(&ctl);
     return 0;
 }
 
@@ -198,7 +207,9 @@ static void spawn_all(int nsheps)
 {
     for (int j = 0; j < N; j++) {
         st[j] = K_INIT; ep[j] = 0; retflag[j] = 0; callsv[j] = 0;
+        real_empty(&go[j]);
     }
+    real_empty(&ctl);
     __sync_synchronize();
     for (int j = 0; j < N; j++) qthread_fork_to(participant, (void *)(intptr_t)j, &rets[j], (qthread_shepherd_id_t)(j % nsheps));
 }
@@ -227,7 +238,7 @@ int main(void)
             spawn_all(nsheps);
             int k = 0, deadlock = 0;
             for (;;) {
-                while (anyrun()) qthread_yield();
+                while (anyrun()) qthread_readFE(NULL, &ctl);
                 int en[MAXT], ne = 0, nd = 0;
                 for (int j = 0; j < N; j++) {
                     int s = st[j];
@@ -246,7 +257,8 @@ int main(void)
                 retflag[i] = 0;
                 __sync_synchronize();
                 turn = i;
-                while (anyrun()) qthread_yield();
+                real_fill(&go[i]);
+                while (anyrun()) qthread_readFE(NULL, &ctl);
                 k++;
                 printf("%d %s %d %d %ld |", i, kname[kind], qthread_feb_status(&B->in_gate) ? 1 : 0,
                        qthread_feb_status(&B->out_gate) ? 1 : 0, (long)B->blockers);
